@@ -131,11 +131,6 @@ def decOrigin (j : Json) : Except String Origin := do
   | "dict" => return .dict
   | o => throw s!"bad origin {o}"
 
-/-- `LocStackEndChecker`: checker i from the end is applied to the stack without its last i elements -/
-def endCheck : List Pred → LocStack → Bool
-  | [], _ => true
-  | p :: ps, st => p st && endCheck ps (st.drop 1)
-
 partial def decPred (j : Json) : Except String Pred := do
   match ← fieldStr j "p" with
   | "name" => return Pred.name (← fieldStr j "n")
@@ -147,19 +142,12 @@ partial def decPred (j : Json) : Except String Pred := do
   | "from_param" => return Pred.fromParam (← fieldStr j "n")
   | "any" => return Pred.any
   | "origin" =>
-    let o ← decOrigin (← field j "o")
-    return fun st => match st with
-      | l :: _ => l.ty.origin == o
-      | [] => false
-  | "gparam" =>
-    let pos ← fieldNat j "pos"
-    return fun st => match st with
-      | l :: _ => l.kind == .genericParam && l.pos == pos
-      | [] => false
+    return Pred.origin (← decOrigin (← field j "o"))
+  | "gparam" => return Pred.genericPos (← fieldNat j "pos")
+  | "garg" => return Pred.genericArg (← fieldNat j "pos") (← decPred (← field j "q"))
   | "end" =>
     -- given bottom first, like the checkers of a LocStackPattern
-    let ps ← (← fieldArr j "stack").mapM decPred
-    return fun st => decide (ps.length ≤ st.length) && endCheck ps.reverse st
+    return Pred.pattern (← (← fieldArr j "stack").mapM decPred)
   | "or" =>
     let ps ← (← fieldArr j "ps").mapM decPred
     return fun st => ps.any (fun p => p st)
